@@ -375,4 +375,256 @@ theorem merge_mem_iff (rev : Bool) (d s : List KV) :
         · exact Or.inl rfl
         · exact Or.inr (Or.inl ⟨h1, h2⟩)
       · exact Or.inr (Or.inr ⟨h1, fun y hy => h2 y (List.mem_cons_of_mem _ hy)⟩)
+
+/-! ## association lists -/
+
+theorem lookup_some_mem {l : List KV} {k v : Bytes} : lookup l k = some v → (k, v) ∈ l := by
+  induction l with
+  | nil => simp [lookup]
+  | cons h t ih =>
+    obtain ⟨k', v'⟩ := h
+    simp only [lookup]
+    split
+    · rename_i e; subst e; intro h; cases h; exact List.mem_cons_self
+    · intro h; exact List.mem_cons_of_mem _ (ih h)
+
+theorem lookup_none_iff {l : List KV} {k : Bytes} : lookup l k = none ↔ ∀ kv ∈ l, kv.1 ≠ k := by
+  induction l with
+  | nil => simp [lookup]
+  | cons h t ih =>
+    obtain ⟨k', v'⟩ := h
+    simp only [lookup]
+    split
+    · rename_i e; subst e; simp
+    · rename_i ne; simp [ih, ne]
+
+theorem lookup_of_mem {rev : Bool} {l : List KV} {k v : Bytes} :
+    StrictlyOrdered rev l → (k, v) ∈ l → lookup l k = some v := by
+  unfold StrictlyOrdered
+  induction l with
+  | nil => simp
+  | cons h t ih =>
+    obtain ⟨k', v'⟩ := h
+    intro hs hm
+    rw [List.pairwise_cons] at hs
+    simp only [lookup]
+    rcases List.mem_cons.1 hm with e | hm
+    · cases e; simp
+    · have : k' ≠ k := KeyBefore.ne (hs.1 _ hm)
+      simp [this, ih hs.2 hm]
+
+theorem mem_iff_lookup {rev : Bool} {l : List KV} (hs : StrictlyOrdered rev l) (k v : Bytes) :
+    (k, v) ∈ l ↔ lookup l k = some v := ⟨lookup_of_mem hs, lookup_some_mem⟩
+
+/-! ## cursors -/
+
+theorem mem_cursor (rev : Bool) (m : List KV) (lo hi : Bytes) (x : KV) :
+    x ∈ cursor rev m lo hi ↔ x ∈ m ∧ inRange lo hi x.1 = true := by
+  cases rev <;> simp [cursor]
+
+theorem keyBefore_true (a b : KV) : KeyBefore true a b ↔ KeyBefore false b a := by simp [KeyBefore]
+
+theorem cursor_sorted (rev : Bool) (m : List KV) (lo hi : Bytes) (h : IsMap m) :
+    StrictlyOrdered rev (cursor rev m lo hi) := by
+  unfold IsMap StrictlyOrdered at *
+  cases rev
+  · simp only [cursor]; exact h.filter _
+  · simp only [cursor, if_true, List.pairwise_reverse]
+    exact (h.filter _).imp (fun {a b} hab => (keyBefore_true b a).2 hab)
+
+/-! ## everything the store iterator yields, pointwise -/
+
+theorem visible_eq_some {o : Option Bytes} {v : Bytes} : visible o = some v ↔ o = some v ∧ v ≠ [] := by
+  cases o with
+  | none => simp [visible]
+  | some w =>
+    simp only [visible]
+    split
+    · rename_i e; subst e; simp
+    · rename_i ne; simp; intro e; subst e; exact ne
+
+theorem storeIter_mem_iff (snap buf : List KV) (lo hi : Bytes) (rev : Bool)
+    (hsnap : IsMap snap) (hbuf : IsMap buf) (hne : NoEmpty snap) (k v : Bytes) :
+    (k, v) ∈ storeIter snap buf lo hi rev ↔ inRange lo hi k = true ∧ viewGet snap buf k = some v := by
+  unfold storeIter
+  rw [iterAll_eq_merge, merge_mem_iff rev _ _ (cursor_sorted rev buf lo hi hbuf) (cursor_sorted rev snap lo hi hsnap)]
+  simp only [mem_cursor, viewGet]
+  cases hl : lookup buf k with
+  | some w =>
+    have hw := lookup_some_mem hl
+    simp only [visible_eq_some]
+    constructor
+    · rintro (⟨⟨h1, h2⟩, h3⟩ | ⟨⟨_, h2⟩, h3⟩)
+      · have := lookup_of_mem hbuf h1
+        rw [hl] at this; cases this
+        exact ⟨h2, rfl, h3⟩
+      · exact absurd rfl (h3 (k, w) ⟨hw, h2⟩)
+    · rintro ⟨h1, h2, h3⟩
+      cases h2
+      exact Or.inl ⟨⟨hw, h1⟩, h3⟩
+  | none =>
+    have hn := lookup_none_iff.1 hl
+    simp only [visible_eq_some]
+    constructor
+    · rintro (⟨⟨h1, _⟩, _⟩ | ⟨⟨h1, h2⟩, _⟩)
+      · exact absurd rfl (hn _ h1)
+      · exact ⟨h2, lookup_of_mem hsnap h1, hne _ h1⟩
+    · rintro ⟨h1, h2, _⟩
+      exact Or.inr ⟨⟨lookup_some_mem h2, h1⟩, fun y hy => hn y hy.1⟩
+
+theorem storeIter_sorted (snap buf : List KV) (lo hi : Bytes) (rev : Bool)
+    (hsnap : IsMap snap) (hbuf : IsMap buf) : StrictlyOrdered rev (storeIter snap buf lo hi rev) := by
+  unfold storeIter
+  rw [iterAll_eq_merge]
+  exact merge_sorted rev _ _ (cursor_sorted rev buf lo hi hbuf) (cursor_sorted rev snap lo hi hsnap)
+
+/-! ## the declarative view -/
+
+def SortedKeys (l : List Bytes) : Prop := l.Pairwise fun a b => Bytes.cmp a b = .lt
+
+theorem mem_insertKey (k : Bytes) (l : List Bytes) (x : Bytes) : x ∈ insertKey k l ↔ x = k ∨ x ∈ l := by
+  induction l with
+  | nil => simp [insertKey]
+  | cons y ys ih =>
+    simp only [insertKey]
+    split
+    · simp
+    · rename_i e; have := (cmp_eq_iff k y).1 e; subst this; simp
+    · simp [ih]; grind
+
+theorem insertKey_sorted (k : Bytes) (l : List Bytes) : SortedKeys l → SortedKeys (insertKey k l) := by
+  unfold SortedKeys
+  induction l with
+  | nil => simp [insertKey]
+  | cons y ys ih =>
+    intro h
+    simp only [insertKey]
+    split
+    · rename_i e
+      rw [List.pairwise_cons]
+      refine ⟨fun z hz => ?_, h⟩
+      rw [List.pairwise_cons] at h
+      rcases List.mem_cons.1 hz with rfl | hz
+      · exact e
+      · exact cmp_lt_trans e (h.1 z hz)
+    · exact h
+    · rename_i e
+      rw [List.pairwise_cons] at h ⊢
+      refine ⟨fun z hz => ?_, ih h.2⟩
+      rcases (mem_insertKey k ys z).1 hz with rfl | hz
+      · exact (cmp_gt_iff _ _).1 e
+      · exact h.1 z hz
+
+theorem mem_sortKeys (l : List Bytes) (x : Bytes) : x ∈ sortKeys l ↔ x ∈ l := by
+  induction l with
+  | nil => simp [sortKeys]
+  | cons y ys ih =>
+    have : sortKeys (y :: ys) = insertKey y (sortKeys ys) := rfl
+    rw [this, mem_insertKey, ih]; simp
+
+theorem sortKeys_sorted (l : List Bytes) : SortedKeys (sortKeys l) := by
+  induction l with
+  | nil => simp [sortKeys, SortedKeys]
+  | cons y ys ih => exact insertKey_sorted y _ ih
+
+theorem lookup_some_key {l : List KV} {k v : Bytes} (h : lookup l k = some v) : k ∈ l.map (·.1) :=
+  List.mem_map.2 ⟨(k, v), lookup_some_mem h, rfl⟩
+
+theorem viewGet_some_universe {snap buf : List KV} {k v : Bytes} (h : viewGet snap buf k = some v) :
+    k ∈ keyUniverse snap buf := by
+  unfold keyUniverse
+  rw [mem_sortKeys, List.mem_append]
+  unfold viewGet at h
+  cases hl : lookup buf k with
+  | some w => exact Or.inl (lookup_some_key hl)
+  | none =>
+    rw [hl] at h
+    simp only [visible_eq_some] at h
+    exact Or.inr (lookup_some_key h.1)
+
+theorem view_mem_iff (snap buf : List KV) (lo hi : Bytes) (k v : Bytes) :
+    (k, v) ∈ view snap buf lo hi ↔ inRange lo hi k = true ∧ viewGet snap buf k = some v := by
+  unfold view
+  rw [List.mem_filterMap]
+  constructor
+  · rintro ⟨a, _, h⟩
+    split at h
+    · rename_i hr
+      cases hv : viewGet snap buf a with
+      | none => simp [hv] at h
+      | some w => simp [hv] at h; obtain ⟨rfl, rfl⟩ := h; exact ⟨hr, hv⟩
+    · simp at h
+  · rintro ⟨h1, h2⟩
+    exact ⟨k, viewGet_some_universe h2, by simp [h1, h2]⟩
+
+theorem view_sorted (snap buf : List KV) (lo hi : Bytes) : StrictlyOrdered false (view snap buf lo hi) := by
+  unfold view StrictlyOrdered
+  refine List.Pairwise.filterMap _ ?_ (sortKeys_sorted _)
+  intro a a' haa b hb b' hb'
+  have e1 : b.1 = a := by
+    split at hb
+    · cases hv : viewGet snap buf a with
+      | none => simp [hv] at hb
+      | some w => simp [hv] at hb; rw [← hb]
+    · simp at hb
+  have e2 : b'.1 = a' := by
+    split at hb'
+    · cases hv : viewGet snap buf a' with
+      | none => simp [hv] at hb'
+      | some w => simp [hv] at hb'; rw [← hb']
+    · simp at hb'
+  simp [KeyBefore, e1, e2, haa]
+
+theorem viewDir_mem_iff (snap buf : List KV) (lo hi : Bytes) (rev : Bool) (k v : Bytes) :
+    (k, v) ∈ viewDir snap buf lo hi rev ↔ inRange lo hi k = true ∧ viewGet snap buf k = some v := by
+  cases rev <;> simp [viewDir, view_mem_iff]
+
+theorem viewDir_sorted (snap buf : List KV) (lo hi : Bytes) (rev : Bool) :
+    StrictlyOrdered rev (viewDir snap buf lo hi rev) := by
+  cases rev
+  · simp only [viewDir]; exact view_sorted snap buf lo hi
+  · simp only [viewDir, if_true, StrictlyOrdered, List.pairwise_reverse]
+    exact (view_sorted snap buf lo hi).imp (fun {a b} hab => (keyBefore_true b a).2 hab)
+
+/-! ## a strictly ordered listing is determined by its entries -/
+
+theorem ordered_ext (rev : Bool) : ∀ (l₁ l₂ : List KV), StrictlyOrdered rev l₁ → StrictlyOrdered rev l₂ →
+    (∀ x, x ∈ l₁ ↔ x ∈ l₂) → l₁ = l₂ := by
+  unfold StrictlyOrdered
+  intro l₁
+  induction l₁ with
+  | nil =>
+    intro l₂ _ _ h
+    cases l₂ with
+    | nil => rfl
+    | cons y ys => exact absurd ((h y).2 List.mem_cons_self) (by simp)
+  | cons x xs ih =>
+    intro l₂ h1 h2 h
+    cases l₂ with
+    | nil => exact absurd ((h x).1 List.mem_cons_self) (by simp)
+    | cons y ys =>
+      rw [List.pairwise_cons] at h1 h2
+      have hxy : x = y := by
+        rcases List.mem_cons.1 ((h x).1 List.mem_cons_self) with e | hx
+        · exact e
+        · rcases List.mem_cons.1 ((h y).2 List.mem_cons_self) with e | hy
+          · exact e.symm
+          · exact absurd (h1.1 y hy) (KeyBefore.asymm (h2.1 x hx))
+      subst hxy
+      congr 1
+      refine ih ys h1.2 h2.2 fun z => ⟨fun hz => ?_, fun hz => ?_⟩
+      · rcases List.mem_cons.1 ((h z).1 (List.mem_cons_of_mem _ hz)) with e | hz'
+        · subst e; exact absurd rfl (KeyBefore.ne (h1.1 z hz))
+        · exact hz'
+      · rcases List.mem_cons.1 ((h z).2 (List.mem_cons_of_mem _ hz)) with e | hz'
+        · subst e; exact absurd rfl (KeyBefore.ne (h2.1 z hz))
+        · exact hz'
+
+theorem storeIter_eq_viewDir (snap buf : List KV) (lo hi : Bytes) (rev : Bool)
+    (hsnap : IsMap snap) (hbuf : IsMap buf) (hne : NoEmpty snap) :
+    storeIter snap buf lo hi rev = viewDir snap buf lo hi rev := by
+  refine ordered_ext rev _ _ (storeIter_sorted snap buf lo hi rev hsnap hbuf) (viewDir_sorted snap buf lo hi rev) ?_
+  rintro ⟨k, v⟩
+  rw [storeIter_mem_iff snap buf lo hi rev hsnap hbuf hne, viewDir_mem_iff]
+
 end CGV.UnionIter
